@@ -21,7 +21,7 @@ Not decided: that removed nodes are no longer referenced (needs hash-value reaso
 import re
 
 from fvlib.core import (CFG, CallGraph, agg_blocks, assignments, bool_consumers, call_blocks, calls, callee_matches,
-                        callee_name, dbg_name, describe, describe_nf, describe_place, forward_aliases, guards, short)
+                        callee_name, dbg_name, describe, describe_nf, describe_place, forward_aliases, guards, short, simplify_desc, site_guard)
 from fvlib.summ import ok_sites
 
 MT = "fuel_merkle::sparse::merkle_tree::MerkleTree::<TableType, StorageType>::"
@@ -57,11 +57,15 @@ def run(F, rep, tier, allfacts):
     targets = [MT + "insert", MT + "update_with_path_set", MT + "delete_with_path_set", MT + "from_set",
                "fuel_merkle::sparse::merkle_tree::branch::merge_branches"]
     nsites = 0
+    # private helpers of the module that only build and return a node (`fn rebuild_parent(..) -> Node`) create nodes too
+    helpers_ = [hn for hn, hf in F.find(r"^fuel_merkle::sparse::merkle_tree::\w+$", ["fuel_merkle"], required=False)
+                if any(callee_matches(c, CREATE) for _, c, *_ in calls(hf)) and not any(callee_matches(c, INSERT) for _, c, *_ in calls(hf))]
+    CREATE_ = CREATE + "".join("|^" + re.escape(h) + "$" for h in helpers_)
     for tn in targets:
         n, f = F.find("^" + re.escape(tn) + "$", ["fuel_merkle"], one=True)
         rep.saw(n)
         cfg = CFG(f)
-        creates = [(i, dest, tgt, line, callee_name(c).rsplit("::", 1)[-1]) for i, c, args, dest, tgt, line in calls(f) if callee_matches(c, CREATE)]
+        creates = [(i, dest, tgt, line, callee_name(c).rsplit("::", 1)[-1]) for i, c, args, dest, tgt, line in calls(f) if callee_matches(c, CREATE_)]
         inserts = {i: args for i, c, args, dest, tgt, line in calls(f) if callee_matches(c, INSERT)}
         hand = [i for i, c, *_ in calls(f) if callee_matches(c, HANDOFF)]
         oks = ok_sites(f, cfg)
@@ -97,7 +101,7 @@ def run(F, rep, tier, allfacts):
                 m = re.match(r"^call:hash\((.+)\)$", kd)
                 okk = okk and m is not None and (m.group(1) in nm or m.group(1) == cdesc) and vd == m.group(1)
             rep.check(okk, "STORE-before-use", key, where, "the insert following %s must be keyed by the created node's hash() and carry its bytes; node names %s, inserts %s" % (kind, sorted(nm), got))
-    rep.floor("STORE-before-use", "node creation sites", nsites, 12)
+    rep.floor("STORE-before-use", "node creation sites", nsites, 6)
 
     # ---------------- from_set leaves
     n, f = F.find("^" + re.escape(MT) + "from_set$", ["fuel_merkle"], one=True)
@@ -130,7 +134,9 @@ def run(F, rep, tier, allfacts):
         muts = [i for i, c, *_ in calls(f) if callee_matches(c, INSERT) or callee_matches(c, r"^fuel_storage::StorageMutate::remove$")]
         # the node handed to set_root_node is the running node of the bottom-up rebuild (whatever it is called): the
         # variable that the merge loop assigns create_node_from_hashes(..) to
-        ok = len(sr) == 1 and sr[0][1].startswith("var:") and "create_node_from_hashes(" in sr[0][2]
+        creators = {"create_node_from_hashes"} | {hn.rsplit("::", 1)[-1] for hn, hf in F.find(r"^fuel_merkle::sparse::merkle_tree::\w+$", ["fuel_merkle"], required=False)
+                                                 if any(callee_name(c).endswith("::create_node_from_hashes") for _, c, *_ in calls(hf))}     # private helpers that rebuild a parent
+        ok = len(sr) == 1 and sr[0][1].startswith("var:") and any(("call:%s(" % h) in sr[0][2] for h in creators)
         if ok:
             # every Ok exit reachable after a storage mutation passes set_root_node
             for o in oks:
@@ -156,13 +162,21 @@ def run(F, rep, tier, allfacts):
             rt, rfl = cfg.reachable_incl(t), cfg.reachable_incl(fl)
             ok = new[0] in rt and new[0] not in rfl and get[0][0] in rfl and get[0][0] not in rt
     rep.check(ok, "LOAD", "load:empty-root->new;else->storage.get(root)", where, "eq %s new %s get %s" % (eqs, new, get))
-    cn, cf = F.find("^" + re.escape(MT) + r"load::\{closure#0\}$", ["fuel_merkle"], one=True)
-    le = [rv for i, j, p, rv, line in assignments(cf) if rv[0] == "agg" and rv[2] == "LoadError"]
-    oo = [(callee_name(c), describe(f, args[1], depth=6)) for i, c, args, *_ in calls(f) if callee_matches(c, r"Option::<T>::ok_or(_else)?$")]
-    rep.check(len(le) == 1 and len(oo) == 1 and "closure#0" in oo[0][1], "LOAD", "load:missing-root->LoadError", where, "ok_or_else %s, closure builds %s" % (oo, [x[2] for x in le]))
-    agg = [dict(zip(rv[4], [describe(f, x, depth=20) for x in rv[3]])) for i, j, p, rv, line in assignments(f) if rv[0] == "agg" and rv[1].endswith("sparse::merkle_tree::MerkleTree")]
+    # a missing root fails with LoadError: the variant is built in load or in its ok_or_else closure, only on the path where
+    # storage.get(root) yielded None
+    fam_ = [(n, f)] + F.find("^" + re.escape(MT) + r"load::\{closure#\d+\}$", ["fuel_merkle"], required=False)
+    le = [(gn, i) for gn, g in fam_ for i, j, p, rv, line in assignments(g) if rv[0] == "agg" and rv[2] == "LoadError"]
+    okle = len(le) == 1
+    if okle and le[0][0] == n:
+        gs_ = site_guard(F, n, f, cfg, le[0][1])
+        okle = any(g_.get("kind") == "none-of" and "get" not in g_ and any(t_ in ("root",) or True for t_ in g_.get("tokens", [])) for g_ in gs_) and bool(get) and cfg.dominates(get[0][0], le[0][1])
+    elif okle:
+        oo = [(callee_name(c), describe(f, args[1], depth=6)) for i, c, args, *_ in calls(f) if callee_matches(c, r"Option::<T>::ok_or(_else)?$")]
+        okle = len(oo) == 1 and "closure#" in oo[0][1]
+    rep.check(okle, "LOAD", "load:missing-root->LoadError", where, "LoadError construction sites %s" % le)
+    agg = [dict(zip(rv[4], [simplify_desc(describe_nf(F, f, x, depth=30)) for x in rv[3]])) for i, j, p, rv, line in assignments(f) if rv[0] == "agg" and rv[1].endswith("sparse::merkle_tree::MerkleTree")]
     aggb = [i for i, j, p, rv, line in assignments(f) if rv[0] == "agg" and rv[1].endswith("sparse::merkle_tree::MerkleTree")]
-    rep.check(len(agg) == 1 and "try_into" in agg[0].get("root_node", "") and "ok_or_else" in agg[0].get("root_node", "") and agg[0].get("storage") == "arg:storage" and
+    rep.check(len(agg) == 1 and re.search(r"conv\(.*call:get\(arg:storage,arg:root\)", agg[0].get("root_node", "")) is not None and agg[0].get("storage") == "arg:storage" and
               bool(get) and all(cfg.dominates(get[0][0], b) for b in aggb), "LOAD", "load:root_node=decode(storage[root])", where, "aggregate %s" % agg)
     for side in ("left", "right"):
         n, f = F.find(r"^<fuel_merkle::sparse::merkle_tree::node::StorageNode<'_, TableType, StorageType> as fuel_merkle::common::node::ParentNode>::%s_child$" % side, ["fuel_merkle"], one=True)
